@@ -48,8 +48,8 @@ end base
 
 /-! ## `SWCLike.__len__`, `Tree.__getitem__` -/
 
-theorem swc_len_eq (ids : List Int) : swc_len ids = some (ids.length : Int) := by
-  simp [swc_len, swc_len.body, Py.finish, Py.len]
+theorem swc_len_eq (ids : List Int) : tf_swc_len ids = some (ids.length : Int) := by
+  simp [tf_swc_len, tf_swc_len.body, Py.finish, Py.len]
 
 /-- **`Tree.__getitem__` on an integer key, as translated**: Python's index normalisation over the number of rows — the node handle is the row
 `key` (or `key + n` for `-n ≤ key < 0`), and an IndexError outside `[-n, n)` -/
